@@ -4,9 +4,11 @@
 package c15
 
 import (
-	"strings"
 	"bytes"
+	"crypto/rsa"
+	stdx509 "crypto/x509"
 	"fmt"
+	"strings"
 	"testing"
 
 	"github.com/tjfoc/gmsm/gmtls"
@@ -23,7 +25,7 @@ var R = hx.NewRecorder("C15", "cases = (endpoint kind: GMSSL client | GMSSL-only
 	"oracle = Handshake() returns (quiescence of the in-memory transport turns waiting into EOF; a read-after-EOF counter catches spinning), returns an error for every true deviation, HandshakeComplete stays false, no panic; legal variations (fragmented or coalesced messages, unknown ticket) must still succeed; non-trivial = deviation applied after at least one valid message or in the first message; distinct by hash of the plan")
 
 func TestMain(m *testing.M) {
-	R.Require("ecdhe_ske", "hello_ext_sweep", "dev:big_record", "replay_deep:gmclient", "replay_deep:tlsclient", "replay_deep:gmserver", "replay_deep:tlsserver", "replay_deep:autoserver", "replay_control", "replay:omit_msg", "replay:hello_ext", "replay:swap_msgs", "hello_vector_lengths", "dev:cke_ciphertext_byte", "dev:cert_list", "peer_pressed_on_after_alert", "endpoint:gmclient", "endpoint:gmserver", "endpoint:autoserver", "endpoint:tlsserver", "endpoint:tlsclient", "vers_sweep_done", "dev:omit", "dev:repeat", "dev:retype", "dev:reorder", "dev:truncate", "dev:len_field", "dev:split", "dev:coalesce",
+	R.Require("junk_certificate_verify", "jcv_vers:300", "ecdhe_ske", "hello_ext_sweep", "dev:big_record", "replay_deep:gmclient", "replay_deep:tlsclient", "replay_deep:gmserver", "replay_deep:tlsserver", "replay_deep:autoserver", "replay_control", "replay:omit_msg", "replay:hello_ext", "replay:swap_msgs", "hello_vector_lengths", "dev:cke_ciphertext_byte", "dev:cert_list", "peer_pressed_on_after_alert", "endpoint:gmclient", "endpoint:gmserver", "endpoint:autoserver", "endpoint:tlsserver", "endpoint:tlsclient", "vers_sweep_done", "dev:omit", "dev:repeat", "dev:retype", "dev:reorder", "dev:truncate", "dev:len_field", "dev:split", "dev:coalesce",
 		"dev:oversize", "dev:ccs_early", "dev:appdata_early", "dev:alert_fatal", "dev:unknown_record", "dev:close", "dev:record_overflow", "replay_perturbed", "legal_must_succeed", "cke_1byte", "hostile_suites")
 	for d := 0; d <= 5; d++ {
 		R.Require(fmt.Sprintf("depth:%d", d))
@@ -566,7 +568,9 @@ func kindOf(ep string) string {
 	return "gm"
 }
 
-func isClientEP(ep string) bool { return ep == "gmclient" || ep == "tlsclient" || ep == "tlsclient_rsa" }
+func isClientEP(ep string) bool {
+	return ep == "gmclient" || ep == "tlsclient" || ep == "tlsclient_rsa"
+}
 
 type recorded struct {
 	c2s, s2c []byte
@@ -1064,6 +1068,133 @@ func TestC15_ECDHEServerKeyExchange(t *testing.T) {
 					t.Fatalf("the client went on to send its ClientKeyExchange although the ServerKeyExchange signature does not verify under the certified signing key\n%s", desc)
 				}
 				R.Case(true, hx.HashKey("ecdhe", suite, c.name, skip), "ecdhe_ske", "endpoint:gmclient")
+			}
+		}
+	}
+}
+
+// A minimal scripted TLS client with RSA key exchange (the sandbox has no other stack that still speaks SSL 3.0, and
+// crypto/tls cannot be made to misbehave): ClientHello at a chosen version, then Certificate, a well-formed
+// ClientKeyExchange and a CertificateVerify whose signature is junk. The server (TLS-only and auto-switch, every
+// certificate-requesting policy) must answer with an error at every version it implements - never a panic, never
+// completion.
+func TestC15_JunkCertificateVerify(t *testing.T) {
+	p := tlsx.GetPKI()
+	srvCert, err := stdx509.ParseCertificate(p.RSASrv.DER)
+	if err != nil {
+		t.Fatal(err)
+	}
+	rsaPub := srvCert.PublicKey.(*rsa.PublicKey)
+	n := 0
+	for _, vers := range []uint16{0x0300, 0x0301, 0x0302, 0x0303} {
+		for _, mode := range []string{"tlsserver", "autoserver"} {
+			for auth := gmtls.RequestClientCert; auth <= gmtls.RequireAndVerifyClientCert; auth++ {
+				n++
+				seed := fmt.Sprint("jcv", n)
+				var sc *gmtls.Config
+				if mode == "tlsserver" {
+					sc = tlsx.TLSServer(p, p.RSASrv, seed)
+				} else {
+					sc = tlsx.AutoServer(p, p.RSASrv, seed)
+				}
+				sc.MinVersion = 0x0300
+				sc.ClientAuth, sc.ClientCAs = auth, p.RootsAll
+				hub := wire.NewHub()
+				cw, sw := hub.Pipe("client:1", "server:443")
+				conn := gmtls.Server(sw, sc)
+				var hsErr error
+				var pn *hx.PanicInfo
+				var log []string
+				rec := func(typ byte, body []byte) []byte {
+					return append([]byte{typ, byte(vers >> 8), byte(vers), byte(len(body) >> 8), byte(len(body))}, body...)
+				}
+				hs := func(typ byte, body []byte) []byte {
+					return append([]byte{typ, byte(len(body) >> 16), byte(len(body) >> 8), byte(len(body))}, body...)
+				}
+				d := hub.GoAll(func() {
+					pn = hx.Try(func() { hsErr = conn.Handshake() })
+					conn.Close()
+				}, func() {
+					defer cw.CloseWrite()
+					random := make([]byte, 32)
+					gen.Fill(random, uint64(n))
+					hello := append([]byte{byte(vers >> 8), byte(vers)}, random...)
+					hello = append(hello, 0, 0, 2, 0x00, 0x2f, 1, 0)
+					cw.Write(rec(22, hs(1, hello)))
+					// read the server flight up to ServerHelloDone (type 14)
+					var buf, hsb []byte
+					tmp := make([]byte, 4096)
+					done := false
+					for !done {
+						k, err := cw.Read(tmp)
+						buf = append(buf, tmp[:k]...)
+						for len(buf) >= 5 {
+							l := int(buf[3])<<8 | int(buf[4])
+							if len(buf) < 5+l {
+								break
+							}
+							if buf[0] == 22 {
+								hsb = append(hsb, buf[5:5+l]...)
+							} else {
+								log = append(log, fmt.Sprintf("record type %d", buf[0]))
+								done = true
+							}
+							buf = buf[5+l:]
+						}
+						for len(hsb) >= 4 {
+							l := int(hsb[1])<<16 | int(hsb[2])<<8 | int(hsb[3])
+							if len(hsb) < 4+l {
+								break
+							}
+							log = append(log, fmt.Sprintf("hs %d", hsb[0]))
+							if hsb[0] == 14 {
+								done = true
+							}
+							hsb = hsb[4+l:]
+						}
+						if err != nil {
+							return
+						}
+					}
+					cert := p.RSAClient.DER
+					list := append([]byte{byte(len(cert) >> 16), byte(len(cert) >> 8), byte(len(cert))}, cert...)
+					cw.Write(rec(22, hs(11, append([]byte{byte(len(list) >> 16), byte(len(list) >> 8), byte(len(list))}, list...))))
+					pms := make([]byte, 48)
+					gen.Fill(pms, uint64(n)+7)
+					pms[0], pms[1] = byte(vers>>8), byte(vers)
+					enc, err := rsa.EncryptPKCS1v15(tlsx.NewDRBG(seed+"rsa"), rsaPub, pms)
+					if err != nil {
+						return
+					}
+					if vers == 0x0300 {
+						cw.Write(rec(22, hs(16, enc)))
+					} else {
+						cw.Write(rec(22, hs(16, append([]byte{byte(len(enc) >> 8), byte(len(enc))}, enc...))))
+					}
+					junk := make([]byte, 256)
+					gen.Fill(junk, uint64(n)+9)
+					cv := append([]byte{byte(len(junk) >> 8), byte(len(junk))}, junk...)
+					if vers == 0x0303 {
+						cv = append([]byte{0x04, 0x01}, cv...)
+					}
+					cw.Write(rec(22, hs(15, cv)))
+					log = append(log, "sent Certificate, ClientKeyExchange, junk CertificateVerify")
+					for {
+						if _, err := cw.Read(tmp); err != nil {
+							return
+						}
+					}
+				})
+				<-d[0]
+				<-d[1]
+				desc := fmt.Sprintf("scripted RSA client at version %#04x against %s with ClientAuth %d: server hs=%v | client saw %v", vers, mode, auth, hsErr, log)
+				if pn != nil {
+					t.Fatalf("the server PANICKED on a junk CertificateVerify: %s\n%s", pn, desc)
+				}
+				if hsErr == nil || conn.ConnectionState().HandshakeComplete {
+					t.Fatalf("the server completed a handshake whose CertificateVerify is junk\n%s", desc)
+				}
+				R.Case(true, hx.HashKey("jcv", vers, mode, auth), "junk_certificate_verify", fmt.Sprintf("jcv_vers:%x", vers))
 			}
 		}
 	}
